@@ -21,6 +21,8 @@ NPROC = 16
 
 
 def _import_target():
+    import logging
+    logging.disable(logging.INFO)   # pyg_base logs an INFO line for every implicit join
     import pyg_base
     path = os.path.realpath(pyg_base.__file__)
     want = os.path.realpath(os.environ.get('PV_REPO_SRC', '/repo/src')) + '/'
@@ -79,7 +81,9 @@ def _tasks(prop, mod, tier, seed, only, scale):
             continue
         if sub.kind == 'hyp':
             if tier == 'quick':
-                tasks.append((prop, sub.name, tier, 'hyp', seed * 1000 + 0, max(1, int(sub.quick * scale)), 0))
+                k = getattr(sub, 'qshards', None) or (4 if sub.quick >= 800 else 1)
+                for sh in range(k):
+                    tasks.append((prop, sub.name, tier, 'hyp', seed * 1000 + 50 + sh, max(1, int(sub.quick * scale / k)), 0))
             else:
                 for sh in range(sub.shards):
                     tasks.append((prop, sub.name, tier, 'hyp', seed * 1000 + 1 + sh, max(1, int(sub.thorough * scale)), 0))
